@@ -24,6 +24,8 @@ SEEDS = [
  'int printf(const char *, ...);\nstruct S { int a; char b[3]; union { long l; double d; }; int f : 3; };\nenum E { A, B = 5, C };\nstatic int g(int x, struct S *p) { switch (x) { case 1: return p->a; case 2 ... 4: return p->b[1]; default: break; } return x ? p->f : (int)p->d; }\nint main(void) { struct S s = { 1, "ab", .l = 7, 2 }; int a[3] = { [1] = 2 }; for (int i = 0; i < 3; i++) a[i] += g(i, &s); do { s.a--; } while (s.a > 0); goto end; end: return printf("%d %d\\n", a[0], (int)sizeof(s)); }\n',
  '#include <stdarg.h>\n#include <stddef.h>\n#define CAT(a, b) a##b\n#define STR(x) #x\n#define MAX(a, b) ((a) > (b) ? (a) : (b))\n#if defined(__x86_64__) && MAX(1, 2) == 2\ntypedef long word;\n#else\ntypedef int word;\n#endif\nstatic word sum(int n, ...) { va_list ap; va_start(ap, n); word s = 0; while (n-- > 0) s += va_arg(ap, int); va_end(ap); return s; }\nconst char *name = STR(CAT(ab, cd));\nint main(void) { _Alignas(16) char buf[32]; return (int)sum(3, 1, 2, 3) + (int)offsetof(struct { char c; long l; }, l) + (int)_Alignof(buf[0]) + sizeof(word); }\n',
  'typedef struct node { struct node *next; int v; } node;\nextern int ext;\nstatic _Thread_local int tl;\nfloat fx = 1.5f; double dx = 2.5e3; long double lx = 0x1p3L; char *s = "a\\tb\\x41\\101" "cat"; int w = L\'x\'; unsigned long ul = 0xfffffffffffffffful; _Bool bb = 3;\nint (*fp)(int, int);\nint add(int a, int b) { return a + b; }\nint main(void) { node n = { 0, 1 }, *p = &n; fp = add; int x = fp(1, 2) + p->v; x <<= 2; x ^= ~x; long y = x > 3 && x < 100 || !x; y = (x, y); void *q = &&lab; goto *q; lab: return ({ int t = (int)y; t + sizeof(int[x ? 1 : 2]); }) + (tl = 3) + _Generic(x, int: 1, default: 2); }\n',
+ # every spelling of the specifiers and qualifiers the parser accepts and ignores, in specifier position, after '*' and in array parameters
+ 'typedef char *str; typedef const char *cstr;\nextern int printf(const char *__restrict, ...);\nstatic int f1(str __restrict p, cstr __restrict__ q, str restrict r) { return p[0] + q[0] + r[0]; }\nstatic int f2(int *restrict a, int *__restrict b, int *__restrict__ c, int d[restrict static 2], int e[const 2], int g[volatile]) { return *a + *b + *c + d[1] + e[1] + g[0]; }\nstatic _Noreturn void die(void) { for (;;); }\nstatic inline int f3(register int x) { auto int y = x; volatile const int z = y; int const volatile *__restrict__ const w = 0; return z + (w == 0); }\nint main(void) { char s[2] = "a"; int v[2] = {1, 2}; signed long long int const k = 3; unsigned long int long u = 4; if (v[0] > 5) die(); return f1(s, s, s) + f2(v, v, v, v, v, v) + f3(2) + (int)k + (int)u; }\n',
 ]
 BENIGN = [('  ', ' '), ('(', '( '), (';', ' ;'), ('{', '{ /* c */'), ('\n', '\n// comment\n'), (' = ', ' =\\\n ')]
 
